@@ -3,20 +3,20 @@
 # case: ''; solver: z3
 # verifier output (counter-model):
 #   a_dagger = False
-#   a_p0 = 39269898169872413/10000000000000000
-#   a_p1 = -6558074684368692887/10000000000000000
+#   a_p0 = 3141593653589793/1000000000000000
+#   a_p1 = -36041921708308900191/40000000000000000
 #   b_dagger = False
-#   b_p0 = 39269908169872413/10000000000000000
-#   b_p1 = -6558074674368692887/10000000000000000
+#   b_p0 = 3141592653589793/1000000000000000
+#   b_p1 = -36041921708308900191/40000000000000000
 #   modq = 1
-#   modq!1 = -209
+#   modq!1 = -287
 #   modq!2 = 1
-#   modq!3 = -209
-#   modr = 7853971633974483/10000000000000000
-#   modr!1 = 7853961633974483/10000000000000000
-#   modr!2 = 7853981633974483/10000000000000000
-#   modr!3 = 7853971633974483/10000000000000000
-I = {'a_p0': 3.9269908169872414, 'a_p1': -395.05527743891645, 'a_dagger': False, 'b_p0': 3.9269908169872414, 'b_p1': -395.05527643891645, 'b_dagger': False}
+#   modq!3 = -287
+#   modr = 1/1000000
+#   modr!1 = 23561954901923449/40000000000000000
+#   modr!2 = 0
+#   modr!3 = 23561954901923449/40000000000000000
+I = {'a_p0': 3.141593653589793, 'a_p1': -901.0480427077225, 'a_dagger': False, 'b_p0': 3.141592653589793, 'b_p1': -901.0480427077225, 'b_dagger': False}
 OBLIGATION = 'program_equivalence/BSgate/01-vs-10/equiv=>same-order-unless-symmetric'
 
 import sys
